@@ -35,7 +35,12 @@ PRINTERS = [
 PRINTER_CMD = dict(PRINTERS)
 # after `export -f f`: bash adds `declare -fx f` behind the definition / lists the exported functions
 EXPORT_PRINTERS = [("declare_pf_name", "declare -pf f"), ("declare_xf", "declare -xf"), ("export_f", "export -f"),
-                   ("export_pf", "export -pf"), ("declare_F_name", "declare -F f"), ("declare_pF", "declare -pF f")]
+                   ("export_pf", "export -pf"), ("declare_F_name", "declare -F f"), ("declare_pF", "declare -pF f"),
+                   ("declare_xF", "declare -xF"), ("declare_f_all", "declare -f"), ("command_v", "command -v f"),
+                   ("command_V", "command -V f")]
+# listing forms used as delivery routes of the printed definition (file written by the printers above, re-read in a
+# subshell by the same shell, and brush's file by bash): body AND export attribute must come back
+ROUTES = ["export_f", "declare_pf_name", "command_V_body"]
 
 # options that must not change what is printed (name -> setup line)
 OPTIONS = [
@@ -134,6 +139,11 @@ def build_script(d, src, define, option, with_self, extglob_child):
         rest.append("%s > x_%s 2>/dev/null || :\n" % (cmd, k))
     rest.append("@SELF@ -c 'declare -f f' > r_child_self 2>/dev/null || :\n")
     rest.append("@OTHER@ -c 'declare -f f' > r_child_other 2>/dev/null || :\n")
+    rest.append("tail -n +2 x_command_V > x_command_V_body 2>/dev/null || :\n")
+    for r in ROUTES:
+        rest.append("( unset -f f; . ./x_%s; declare -f f > rr_%s; declare -F f > ra_%s ) 2>/dev/null || :\n" % (r, r, r))
+        rest.append("[ -f BRUSH_x_%s ] && ( unset -f f; . ./BRUSH_x_%s; declare -f f > rb_%s; declare -F f > rba_%s ) 2>/dev/null || :\n"
+                    % (r, r, r, r))
     # the other shell's print of what it imported, read back here (bash: must be bash's own function again)
     rest.append("[ -s r_child_other ] && { unset -f f; . ./r_child_other 2>/dev/null; declare -f f > r_other_back 2>/dev/null; } || :\n")
     rest.append("[ -f BRUSH_T ] && { unset -f f; . ./BRUSH_T 2>/dev/null; declare -f f > r_brush_text 2>/dev/null; } || :\n")
@@ -230,11 +240,14 @@ def run_one(args):
                     shutil.copy(os.path.join(d, f), sd)
             if which == "bash" and res["brush"].get("T") is not None:
                 open(os.path.join(sd, "BRUSH_T"), "w").write(res["brush"]["T"])
+                for rt in ROUTES:
+                    if res["brush"].get("x_" + rt) is not None:
+                        open(os.path.join(sd, "BRUSH_x_" + rt), "w").write(res["brush"]["x_" + rt])
             text = script.replace("@SELF@", me).replace("@OTHER@", other)
             r = lib.run_shell(which, text, mode="file", timeout=30, cwd=sd)
             files = {}
             for f in os.listdir(sd):
-                if not f.endswith(".sh") and f != "BRUSH_T":
+                if not f.endswith(".sh") and not f.startswith("BRUSH_"):
                     try:
                         files[f] = open(os.path.join(sd, f), errors="replace").read()
                     except OSError:
@@ -323,16 +336,45 @@ def judge_one(res, model_p, model_w, define, option, has_self):
                       {"got": (bs.get("r_brush_text") or "")[:300], "expected": base_b[:300]}))
     if "outer" in bs and bz.get("outer") is not None and (bs["outer"].strip() == "rc=1") != (bz["outer"].strip() == "rc=1"):
         fails.append(("leak", None, "a definition made in a subshell / command substitution is (not) visible outside, unlike bash", bz.get("outer")))
-    # the export attribute / exported-function listings (bash as oracle for what is shown)
+    # the listings of an exported function: positive comparison with bash (what is listed, and the attribute lines)
+    def shape(t):
+        """function headers at column 0 and attribute lines of a listing, in order"""
+        return [l for l in (t or "").split("\n") if re.match(r"^\S+ \(\) $", l) or l.startswith("declare -f")]
     for k, cmd in EXPORT_PRINTERS:
         zt, bt = bz.get("x_" + k), bs.get("x_" + k)
         if bt is None:
             continue
+        if option == "posix" and k in ("export_f", "export_pf"):
+            continue     # bash quirk: in posix mode `export -f` prints `export -f name` lines, no definitions (not a printer there)
+        if k in ("declare_F_name", "declare_pF", "declare_xF", "command_v"):
+            if (zt or "") != bt:
+                fails.append(("export_attr:" + k, "export_attr", "`%s` prints something else than bash for an exported function" % cmd,
+                              {"brush": (zt or "")[:200], "bash": bt[:200]}))
+            continue
+        if k == "command_V":
+            zt = zt[len("f is a function\n"):] if (zt or "").startswith("f is a function\n") else "<no function report>" + (zt or "")
+            bt = bt[len("f is a function\n"):] if bt.startswith("f is a function\n") else bt
         b_blk, z_blk = block_of_f(bt), block_of_f(zt) if zt is not None else None
-        b_attr = "declare -fx f" in bt.split("\n")
-        z_attr = zt is not None and "declare -fx f" in zt.split("\n")
         if b_blk == base_b and z_blk != base_z:
-            fails.append(("export_listing:" + k, "export_listing", "`%s` does not list the exported function's definition; bash does" % cmd, (zt or "")[:200]))
-        elif b_attr and not z_attr:
-            fails.append(("export_attr:" + k, "export_attr", "`%s` does not show the export attribute (`declare -fx f`); bash does" % cmd, (zt or "")[:200]))
+            fails.append(("export_listing:" + k, "export_listing", "`%s` does not show the exported function's definition; bash does" % cmd, (zt or "")[:200]))
+        elif [l for l in shape(zt) if not l.startswith(("g", "function g"))] != [l for l in shape(bnorm(bt)) if not l.startswith("g")]:
+            fails.append(("export_attr:" + k, "export_attr", "`%s` lists other functions / attribute lines (`declare -fx name`) than bash" % cmd,
+                          {"brush": shape(zt), "bash": shape(bt)}))
+    # the listings as delivery routes: re-read, they give back the body and the export attribute
+    for rt in ROUTES:
+        if bs.get("rr_" + rt) is None or bnorm(block_of_f(bs.get("rr_" + rt))) != bnorm(base_b):
+            notes.append("bash_route_quirk:" + rt)
+            continue
+        if block_of_f(bz.get("rr_" + rt)) != base_z:
+            fails.append(("route:" + rt, "route", "the text of the `%s` listing, re-read by brush, does not give the function back" % rt,
+                          {"got": (bz.get("rr_" + rt) or "")[:300], "expected": base_z[:300]}))
+        elif (bz.get("ra_" + rt) or "") != (bs.get("ra_" + rt) or ""):
+            fails.append(("route_attr:" + rt, "route", "after re-reading the `%s` listing the export attribute differs from bash's" % rt,
+                          {"brush": bz.get("ra_" + rt), "bash": bs.get("ra_" + rt)}))
+        if bnorm(block_of_f(bs.get("rb_" + rt))) != bnorm(base_b):
+            fails.append(("route_bash:" + rt, "route", "bash reads brush's `%s` listing as a different function (or none)" % rt,
+                          {"got": (bs.get("rb_" + rt) or "")[:300], "expected": base_b[:300]}))
+        elif (bs.get("rba_" + rt) or "") != (bs.get("ra_" + rt) or ""):
+            fails.append(("route_bash_attr:" + rt, "route", "bash, after reading brush's `%s` listing, holds another export attribute than after its own" % rt,
+                          {"from_brush_text": bs.get("rba_" + rt), "from_bash_text": bs.get("ra_" + rt)}))
     return fails, notes
